@@ -79,6 +79,11 @@ func genRecover(c *Config, r *rand.Rand) {
 	case "fatal-nonconverge":
 		c.PipeProcs = []ProcCfg{{ID: "pl-p1", Workers: 1, Stuck: true}}
 	}
+	if strings.HasPrefix(sc, "fatal-") && r.IntN(3) == 0 {
+		// a slow store: the status write of the start may still be under way when the run fails
+		c.MaxFaults = 1
+		c.Faults["db.stall"] = pick(r, 300, 1000)
+	}
 	if strings.HasPrefix(sc, "fatal-") && sc != "fatal-nonconverge" && r.IntN(2) == 0 {
 		// the fatal cause arrives while the server is shutting down or a user stop is draining
 		plan = append(plan, Action{Client: "user", Op: pick(r, "stopall", "stopall", "stop"), When: pick(r, "emitted", "written", "step"), N: r.IntN(total + 1)})
@@ -198,6 +203,9 @@ func genControl(c *Config, r *rand.Rand) {
 	c.Plan = plan
 	// some histories also meet failing status writes (only the pipeline document is hit):
 	// a start whose "running" status cannot be stored, a cleanup that cannot record its result
+	if c.MaxFaults > 0 && r.IntN(4) == 0 {
+		c.Faults["db.stall"] = pick(r, 100, 300)
+	}
 	if c.MaxFaults > 0 && r.IntN(4) == 0 {
 		c.Faults["db.err"] = pick(r, 100, 300, 600)
 		c.FaultOnlyKeys = "pipeline:instance:"
